@@ -12,6 +12,9 @@ from luqum.elasticsearch import ElasticsearchQueryBuilder
 from luqum.exceptions import InconsistentQueryException
 
 
+SHARED = {}
+
+
 def check(item):
     q, ci = item
     cfgd = es_corpus.CONFIGS[ci]
@@ -22,12 +25,21 @@ def check(item):
     for kind, t in es_corpus.trees_for(q):
         n += 1
         b = ElasticsearchQueryBuilder(**cfgd)
+        # one long-lived builder per configuration and worker process sees every query of its share, accepted or refused, in order
+        shared = SHARED.setdefault(ci, ElasticsearchQueryBuilder(**cfgd))
+        try:
+            js_shared = shared(t)
+        except Exception as e:  # noqa: BLE001
+            js_shared = "raised %s" % type(e).__name__
         try:
             js = b(t)
-        except InconsistentQueryException:
-            continue
-        except Exception as e:  # noqa: BLE001  (C07's business; reported there)
-            continue
+        except Exception as e:  # noqa: BLE001
+            js = "raised %s" % type(e).__name__
+        if json.dumps(js_shared, sort_keys=True, default=str) != json.dumps(js, sort_keys=True, default=str):
+            fails.append({"input": q, "tree": kind, "config": ci, "signature": "history",
+                          "observation": "a builder that translated / refused other queries before gives %s, a fresh one %s" % (json.dumps(js_shared, default=str)[:200], json.dumps(js, default=str)[:200])})
+        if isinstance(js, str):
+            continue            # refused (C07 decides whether rightly)
         # the same nested fields spelled as a flat list of dotted names / as dotted keys: the same query, to the letter
         if cfgd["nested_fields"] and not R.leafless_levels(cfgd["nested_fields"]):
             flat = sorted(R.spec_paths(cfgd["nested_fields"]))
@@ -78,7 +90,8 @@ def check(item):
 def main():
     p = read_payload()
     qs = es_corpus.queries(p["max_leaves"])
-    items = [(q, ci) for q in qs for ci in range(len(es_corpus.CONFIGS))]
+    inner_dotted = {ci for ci, c in enumerate(es_corpus.CONFIGS) if c["nested_fields"] and "i.a" in c["nested_fields"].get("n", {})}
+    items = [(q, ci) for q in qs for ci in range(len(es_corpus.CONFIGS)) if ci not in inner_dotted or "n" in q]
     res = pmap(check, items)
     failures = [f for r in res for f in r[1]]
     rest, hit = classify(failures, p.get("known", []))
